@@ -787,6 +787,12 @@ func consensusPath(e *poolEnv, c ACase, ev *types.DuplicateVoteEvidence, class s
 	r.Add("evaluations_consensus", 1)
 	err = p.AddEvidenceFromConsensus(ev)
 	pend, _ := p.PendingEvidence(-1)
+	if err == nil && len(pend) == 0 {
+		// not pending at once: a pool may keep consensus evidence aside until the next block is committed;
+		// part (b) (next commit) and part (c) (end to end) judge that
+		r.Add("consensus_evidence_deferred", 1)
+		return
+	}
 	ok := err == nil && len(pend) == 1 && pend[0].Hash() == ev.Hash()
 	if ok {
 		p2, err2 := evidence.NewPool(e.store, evdb, e.app)
